@@ -13,3 +13,8 @@ open PhQVerif Generated PhQVerif.Props.C18
 #print axioms traction
 #print axioms isotropic_stress
 #print axioms all_formats
+#print axioms PhQVerif.Props.C18.few_ulps
+#print axioms PhQVerif.Props.C18.rounding_counts
+#print axioms PhQVerif.Props.C18.few_ulps_relative
+#eval s!"COUNT C18.slots_in_positive_fragment {(PhQVerif.Props.C18.definitions.map (fun e => ((e.numOuts.getD []).filterMap (posFrag e.fm.fmt.p)).length)).sum}"
+#eval s!"COUNT C18.slots_total {(PhQVerif.Props.C18.definitions.map (fun e => (e.numOuts.getD []).length)).sum}"
